@@ -102,14 +102,15 @@ func features(schema any) map[string]bool {
 				}
 			}
 			if hasEnum {
-				seen := map[string]bool{}
+				seen := map[string]string{}
 				for _, e := range enum {
 					if s, ok := e.(string); ok {
 						n := strings.ToLower(nonAlnum.ReplaceAllString(s, ""))
-						if seen[n] {
+						if first, dup := seen[n]; dup && first != s { // (the same string listed twice is declared once: not a collision)
 							f["enum-const-collision"] = true
+						} else if !dup {
+							seen[n] = s
 						}
-						seen[n] = true
 					}
 				}
 			}
